@@ -13,6 +13,7 @@ package main
 import (
 	"fmt"
 	"math/rand"
+	"os"
 	"runtime"
 	"strconv"
 	"strings"
@@ -86,45 +87,80 @@ var c12Wait = 10 * time.Second
 // QueueLength grew; after Release/Update we wait for exactly as many returns
 // as QueueLength dropped.
 func execSem(size int64, ops []semOp, client bool) semExec {
-	var ex semExec
-	sem := core.NewResourceSemaphore(size, core.DefaultResourceFormatter("u"))
-	results := make(chan c12Res, len(ops)+4)
-	var pending []c12Pend
-	held := map[int]int64{}
-	var heldSum int64
-	panicked := false
-	step := 0
-	var prevRes int64
-	fail := func(name, f string, a ...interface{}) {
-		ex.Monitors = append(ex.Monitors, fmt.Sprintf("%s@%d: %s", name, step, fmt.Sprintf(f, a...)))
-	}
+	run := newSemRunner(size, client, len(ops))
 	for _, op := range ops {
+		if !run.do(op) {
+			break
+		}
+	}
+	return run.finish()
+}
+
+// semRunner: one real semaphore being driven op by op (execSem = a fixed
+// sequence; c12_walk.go chooses the next op from the real state).
+type semRunner struct {
+	size     int64
+	client   bool
+	sem      *core.ResourceSemaphore
+	results  chan c12Res
+	pending  []c12Pend
+	held     map[int]int64
+	heldSum  int64
+	panicked bool
+	prevRes  int64
+	// the availability the last Update* call reported (the size it asked the
+	// semaphore to apply, from the documented meaning of the three entry points;
+	// = the limit before the first update)
+	observed int64
+	step     int
+	ex       semExec
+}
+
+func newSemRunner(size int64, client bool, maxOps int) *semRunner {
+	return &semRunner{size: size, client: client, observed: size,
+		sem:     core.NewResourceSemaphore(size, core.DefaultResourceFormatter("u")),
+		results: make(chan c12Res, maxOps+4), held: map[int]int64{}}
+}
+
+func (run *semRunner) fail(name, f string, a ...interface{}) {
+	run.ex.Monitors = append(run.ex.Monitors, fmt.Sprintf("%s@%d: %s", name, run.step, fmt.Sprintf(f, a...)))
+}
+
+// do makes one call; false = the run is over (stalled).
+func (run *semRunner) do(op semOp) bool {
+	sem, ex, size, client := run.sem, &run.ex, run.size, run.client
+	fail := run.fail
+	if ex.Stalled {
+		return false
+	}
+	{
 		if client && op.Kind == "r" {
-			n, ok := held[op.Id]
+			n, ok := run.held[op.Id]
 			if !ok {
-				continue // releasing something not held: no call
+				return true // releasing something not held: no call
 			}
 			op.N = n
-			delete(held, op.Id)
-			heldSum -= n
+			delete(run.held, op.Id)
+			run.heldSum -= n
 		}
-		step = len(ex.Eff)
+		run.step = len(ex.Eff)
 		ex.Eff = append(ex.Eff, op)
 		var evs []string   // non-grant events of this call
 		var granted []int  // ids whose queued Acquire returned during this call
 		var fastGrant bool // the Acquire of this call returned nil immediately
 		q0 := sem.QueueLength()
+		res0 := sem.Reserved()
 		switch op.Kind {
 		case "a":
 			go func(id int, n int64) {
 				err := sem.Acquire(n)
-				results <- c12Res{id, err}
+				run.results <- c12Res{id, err}
 			}(op.Id, op.N)
 			deadline := time.Now().Add(c12Wait)
 		wait:
 			for {
 				select {
-				case r := <-results:
+				case r := <-run.results:
 					if r.id != op.Id {
 						fail("spurious-return", "Acquire of id %d returned during Acquire of id %d", r.id, op.Id)
 					}
@@ -132,13 +168,13 @@ func execSem(size int64, ops []semOp, client bool) semExec {
 						evs = append(evs, fmt.Sprintf("x%d=%d", r.id, op.N))
 					} else {
 						fastGrant = true
-						held[r.id] = op.N
-						heldSum += op.N
+						run.held[r.id] = op.N
+						run.heldSum += op.N
 					}
 					break wait
 				default:
 					if sem.QueueLength() == q0+1 {
-						pending = append(pending, c12Pend{op.Id, op.N})
+						run.pending = append(run.pending, c12Pend{op.Id, op.N})
 						break wait
 					} else if time.Now().After(deadline) {
 						fail("acquire-lost", "Acquire(%d) neither returned nor was queued", op.N)
@@ -153,17 +189,30 @@ func execSem(size int64, ops []semOp, client bool) semExec {
 				defer func() {
 					if e := recover(); e != nil {
 						evs = append(evs, "p")
-						panicked = true
+						run.panicked = true
 					}
 				}()
 				sem.Release(op.N)
 			}()
 		case "ua":
 			evs = append(evs, "v"+strconv.FormatInt(sem.UpdateActual(op.N), 10))
+			run.observed = c12Min(op.N+res0, size)
 		case "us":
 			sem.UpdateSize(op.N)
+			run.observed = op.N
 		case "uf":
 			evs = append(evs, "v"+strconv.FormatInt(sem.UpdateFreeUsed(op.N, op.M), 10))
+			// "based on the current free amount and the amount of usage by
+			// reserved jobs"; usage above the reservations lowers the cap
+			run.observed = c12Min(op.N+op.M, size)
+			if adjust := op.M - res0; adjust > 0 {
+				// (the code's rule, discontinuous at free+used = limit-adjust)
+				if op.N+op.M > size-adjust {
+					run.observed = size - adjust
+				} else {
+					run.observed = op.N + op.M - adjust
+				}
+			}
 		}
 		var gev []string
 		if op.Kind == "a" {
@@ -179,7 +228,7 @@ func execSem(size int64, ops []semOp, client bool) semExec {
 			deadline := time.NewTimer(c12Wait)
 			for k := 0; k < expect; k++ {
 				select {
-				case r := <-results:
+				case r := <-run.results:
 					if r.err != nil {
 						fail("queued-error", "queued Acquire of id %d returned an error: %v", r.id, r.err)
 					}
@@ -193,17 +242,17 @@ func execSem(size int64, ops []semOp, client bool) semExec {
 			deadline.Stop()
 			// FIFO monitor: the granted set must be the oldest len(granted) waiters
 			k := len(granted)
-			if k > len(pending) {
-				k = len(pending)
+			if k > len(run.pending) {
+				k = len(run.pending)
 			}
 			oldest := map[int]bool{}
-			for _, p := range pending[:k] {
+			for _, p := range run.pending[:k] {
 				oldest[p.id] = true
 			}
 			for _, g := range granted {
 				if !oldest[g] {
 					ids := []int{}
-					for _, p := range pending {
+					for _, p := range run.pending {
 						ids = append(ids, p.id)
 					}
 					fail("fifo", "granted ids %v are not the oldest waiters (queue, oldest first: %v)", granted, ids)
@@ -216,21 +265,21 @@ func execSem(size int64, ops []semOp, client bool) semExec {
 				gset[g] = true
 			}
 			var rest []c12Pend
-			for _, p := range pending {
+			for _, p := range run.pending {
 				if gset[p.id] {
 					gev = append(gev, fmt.Sprintf("g%d=%d", p.id, p.n))
-					held[p.id] = p.n
-					heldSum += p.n
+					run.held[p.id] = p.n
+					run.heldSum += p.n
 					delete(gset, p.id)
 				} else {
 					rest = append(rest, p)
 				}
 			}
-			pending = rest
+			run.pending = rest
 		}
 		// stray returns?
 		select {
-		case r := <-results:
+		case r := <-run.results:
 			fail("spurious-return", "Acquire of id %d returned although nothing released it", r.id)
 			gev = append(gev, fmt.Sprintf("g%d=?", r.id))
 		default:
@@ -239,24 +288,30 @@ func execSem(size int64, ops []semOp, client bool) semExec {
 		ex.Obs = append(ex.Obs, fmt.Sprintf("%d:%d:%d:%s", cur, res, ql, strings.Join(append(gev, evs...), ",")))
 
 		// ---- property monitors on the real code ----
+		pending := run.pending
 		if ql != len(pending) {
 			fail("queue-length", "QueueLength()=%d but %d requests are blocked", ql, len(pending))
 		}
-		if !panicked && len(pending) > 0 && sem.Available() >= pending[0].n {
+		if !run.panicked && len(pending) > 0 && sem.Available() >= pending[0].n {
 			fail("lost-wakeup", "oldest waiter (id %d, amount %d) fits Available()=%d but was not granted",
 				pending[0].id, pending[0].n, sem.Available())
+		} else if !run.panicked && len(pending) > 0 && run.observed-res >= pending[0].n {
+			// ... nor may it be left waiting because the semaphore did not take
+			// notice of the availability it was last told about
+			fail("lost-wakeup", "oldest waiter (id %d, amount %d) fits the availability last reported to the semaphore (size %d - Reserved() %d = %d) but was not granted; CurrentSize()=%d",
+				pending[0].id, pending[0].n, run.observed, res, run.observed-res, cur)
 		}
 		if len(gev) > 0 && res > cur {
 			fail("grant-does-not-fit", "granted with Reserved()=%d > CurrentSize()=%d", res, cur)
 		}
 		// an over-commitment (reserved > current size, left by an availability drop) never grows
-		if !(op.Kind == "r" && op.N < 0) && res > prevRes && res > cur {
-			fail("overcommit-grew", "Reserved() rose from %d to %d above CurrentSize()=%d", prevRes, res, cur)
+		if !(op.Kind == "r" && op.N < 0) && res > run.prevRes && res > cur {
+			fail("overcommit-grew", "Reserved() rose from %d to %d above CurrentSize()=%d", run.prevRes, res, cur)
 		}
-		prevRes = res
+		run.prevRes = res
 		if client {
-			if res != heldSum {
-				fail("bookkeeping", "Reserved()=%d but holders hold %d", res, heldSum)
+			if res != run.heldSum {
+				fail("bookkeeping", "Reserved()=%d but holders hold %d", res, run.heldSum)
 			}
 			if res > size {
 				fail("over-limit", "Reserved()=%d exceeds the limit %d", res, size)
@@ -265,12 +320,14 @@ func execSem(size int64, ops []semOp, client bool) semExec {
 				fail("over-limit", "CurrentSize()=%d exceeds the limit %d", cur, size)
 			}
 		}
-		if ex.Stalled {
-			break
-		}
 	}
-	// cleanup: let every blocked goroutine go
-	if len(pending) > 0 && !ex.Stalled {
+	return !ex.Stalled
+}
+
+// finish lets every blocked goroutine go and returns the record.
+func (run *semRunner) finish() semExec {
+	sem := run.sem
+	if len(run.pending) > 0 && !run.ex.Stalled {
 		func() {
 			defer func() { recover() }()
 			sem.UpdateSize(1 << 60)
@@ -279,15 +336,22 @@ func execSem(size int64, ops []semOp, client bool) semExec {
 			}
 		}()
 		t := time.NewTimer(2 * time.Second)
-		for range pending {
+		for range run.pending {
 			select {
-			case <-results:
+			case <-run.results:
 			case <-t.C:
 			}
 		}
 		t.Stop()
 	}
-	return ex
+	return run.ex
+}
+
+func c12Min(a, b int64) int64 {
+	if a < b {
+		return a
+	}
+	return b
 }
 
 // genSemOps: client-protocol sequences (client=true) or raw API sequences.
@@ -493,6 +557,9 @@ func c12Stress(c *Ctx, rounds int) {
 	r := c.Res
 	for round := 0; round < rounds; round++ {
 		size := int64(4 + c.Rng.Intn(40))
+		if round%3 == 2 {
+			size, _ = c12WalkSize(c.Rng) // large limits too (1..10^6)
+		}
 		workers := 4 + c.Rng.Intn(12)
 		iters := 30 + c.Rng.Intn(50)
 		sem := core.NewResourceSemaphore(size, core.DefaultResourceFormatter("u"))
@@ -604,6 +671,60 @@ func c12Stress(c *Ctx, rounds int) {
 	}
 }
 
+// c12Account: histogram / sample / judgement of one executed sequence against
+// the model's reply.
+func c12Account(c *Ctx, sc semCase, ex semExec, rep string, idx, sampleEvery int, reported map[string]int) {
+	r := c.Res
+	queued, grants, panics, rejects := false, 0, 0, 0
+	for _, o := range ex.Obs {
+		f := strings.SplitN(o, ":", 4)
+		if len(f) == 4 {
+			if f[2] != "0" {
+				queued = true
+			}
+			for _, e := range strings.Split(f[3], ",") {
+				switch {
+				case strings.HasPrefix(e, "g"):
+					grants++
+				case strings.HasPrefix(e, "x"):
+					rejects++
+				case e == "p":
+					panics++
+				}
+			}
+		}
+	}
+	r.count(fmt.Sprintf("sem|%d|%s", sc.Size, semOpsString(ex.Eff)), queued)
+	if queued {
+		r.hist("sem_sequences_with_queueing")
+	}
+	if panics > 0 {
+		r.hist("sem_sequences_with_bad_release_panic")
+	}
+	if rejects > 0 {
+		r.hist("sem_sequences_with_rejection")
+	}
+	r.Histogram["sem_ops"] += len(ex.Eff)
+	r.Histogram["sem_grants"] += grants
+	if idx%sampleEvery == 0 {
+		r.sample(map[string]interface{}{"size": sc.Size, "ops": semOpsString(ex.Eff), "real_after_each_op": ex.Obs})
+	}
+	var mo []string
+	if rep != "" {
+		mo = strings.Split(rep, ";")
+	}
+	if rep == "bad-op" {
+		r.violate(Violation{Kind: "correspondence", Key: "C12:sem:driver-bad-op", What: "driver rejected the op encoding",
+			Input: semOpsString(ex.Eff), Broken: "correspondence C12.sem"})
+		return
+	}
+	if len(ex.Monitors) > 0 {
+		reportSem(c, sc, "property", ex.Monitors[0], reported)
+	} else if d := firstDiff(ex.Obs, mo); d >= 0 {
+		reportSem(c, sc, "correspondence", "mismatch", reported)
+	}
+}
+
 func parseSemCorpus(line string) (semCase, bool) {
 	// "<size>|<client 0/1>|<ops>"
 	p := strings.SplitN(line, "|", 3)
@@ -658,11 +779,30 @@ func parseSemCorpus(line string) (semCase, bool) {
 	return sc, true
 }
 
+// c12Part: development aid — C12_ONLY=sem,walk,stress,mj,cluster,queue,local,tierb
+// restricts a run to the named parts (unset = everything, which is what ./check runs).
+func c12Part(name string) bool {
+	only := os.Getenv("C12_ONLY")
+	if only == "" {
+		return true
+	}
+	for _, p := range strings.Split(only, ",") {
+		if p == name {
+			return true
+		}
+	}
+	return false
+}
+
 func runC12(c *Ctx) {
 	r := c.Res
 	util.ENABLE_LOGGING = false
 	c12Wait = c12Scaled(10 * time.Second)
+	c12QueueBaseInit(c) // before anything initialises util.RelPath
 	defer func() {
+		if !c12Part("tierb") {
+			return
+		}
 		// Tier B: the real mrp + local job manager + stage processes; overlap of job
 		// intervals weighted by the reservations recorded in _jobinfo
 		if r.Histogram == nil {
@@ -676,7 +816,7 @@ func runC12(c *Ctx) {
 			c12TierB(c, env, 4)
 		}
 	}()
-	r.Rule = "ResourceSemaphore: op sequences (corpus + PRNG; client-protocol and raw-API streams; sizes 1..40, 5..40 ops; amounts 0, small, =limit, >limit, negative in the raw stream; UpdateActual/UpdateSize/UpdateFreeUsed below, at and above the limit) executed on the real semaphore with one goroutine per Acquire and compared with Martian.Semaphore.step after every op (CurrentSize, Reserved, QueueLength, grants/rejections/panic/return value); non-trivial = at least one request had to queue; distinct = distinct (size, op sequence). Monitors on the real code after every op: grant fits, FIFO, no lost wake-up, Reserved = sum held, Reserved <= limit. + concurrent stress rounds. MaxJobsSemaphore: op sequences vs MJ.step + |running| <= limit + no blocked waiter while there is room. GetSystemReqs: dyadic-rational requests vs Martian.Semaphore.normalize. LocalJobManager.Enqueue: real /bin/sh jobs, start/end log replayed against the limits with the model's Acquire amounts"
+	r.Rule = "ResourceSemaphore: op sequences (corpus + PRNG; client-protocol and raw-API streams; limits 1..40, 5..40 ops; amounts 0, small, =limit, >limit, negative in the raw stream; UpdateActual/UpdateSize/UpdateFreeUsed below, at and above the limit) + threshold-walk stream (limits 1..10^6 incl. powers of two and multiples of 64 +-2, amounts relative to the limit, next op chosen from the real state: availability updates through all entry points just below / exactly at / just above the point where the oldest waiter fits, steps of 1, 2, limit/1000, limit/64-+1, dip-and-recover, repeated observations), each executed on the real semaphore with one goroutine per Acquire and compared with Martian.Semaphore.step after every op (CurrentSize, Reserved, QueueLength, grants/rejections/panic/return value); non-trivial = at least one request had to queue; distinct = distinct (size, op sequence). Monitors on the real code after every op: grant fits, FIFO, no lost wake-up (against Available() and against the availability last reported to the semaphore), Reserved = sum held, Reserved <= limit. + concurrent stress rounds (every third with a large limit). MaxJobsSemaphore: op sequences vs MJ.step + |running| <= limit + no blocked waiter while there is room. GetSystemReqs: dyadic-rational requests vs Martian.Semaphore.normalize. LocalJobManager.Enqueue: real /bin/sh jobs, start/end log replayed against the limits with the model's Acquire amounts. Cluster mode: restart with --maxjobs; queue-query reconciliation scenarios (real queryQueue/checkQueue/failNotRunning/refreshState with a controlled query command and a shifted clock) vs Martian.SemaphoreQueue.step after every event + monitors lost-job-not-failed / healthy-job-failed; non-trivial = some job was marked. refreshResources: isolated worker processes run the real refreshResources on production-shaped job managers with real jobs; per refresh the four semaphores vs Martian.SemaphoreRefresh for the observations read before and after the call + monitor fitting-job-parked; non-trivial = a refresh with something reserved or waiting"
 
 	reported := map[string]int{}
 	var cases []semCase
@@ -691,6 +831,9 @@ func runC12(c *Ctx) {
 	n := 6000
 	if c.Thorough {
 		n = 80000
+	}
+	if !c12Part("sem") {
+		n, cases = 0, nil
 	}
 	for i := 0; i < n; i++ {
 		size := int64(1 + c.Rng.Intn(12))
@@ -711,7 +854,7 @@ func runC12(c *Ctx) {
 	const chunk = 500
 	semBudget, semT0 := 25*time.Second, time.Now()
 	if c.Thorough {
-		semBudget = 240 * time.Second
+		semBudget = 180 * time.Second
 	}
 	for lo := 0; lo < len(cases); lo += chunk {
 		if time.Since(semT0) > semBudget {
@@ -730,56 +873,17 @@ func runC12(c *Ctx) {
 		}
 		reps := c.Drv.AskBatch(reqs)
 		for i, sc := range cases[lo:hi] {
-			ex := exs[i]
-			queued, grants, panics, rejects := false, 0, 0, 0
-			for _, o := range ex.Obs {
-				f := strings.SplitN(o, ":", 4)
-				if len(f) == 4 {
-					if f[2] != "0" {
-						queued = true
-					}
-					for _, e := range strings.Split(f[3], ",") {
-						switch {
-						case strings.HasPrefix(e, "g"):
-							grants++
-						case strings.HasPrefix(e, "x"):
-							rejects++
-						case e == "p":
-							panics++
-						}
-					}
-				}
-			}
-			r.count(fmt.Sprintf("sem|%d|%s", sc.Size, semOpsString(ex.Eff)), queued)
-			if queued {
-				r.hist("sem_sequences_with_queueing")
-			}
-			if panics > 0 {
-				r.hist("sem_sequences_with_bad_release_panic")
-			}
-			if rejects > 0 {
-				r.hist("sem_sequences_with_rejection")
-			}
-			r.Histogram["sem_ops"] += len(ex.Eff)
-			r.Histogram["sem_grants"] += grants
-			if (lo+i)%617 == 0 {
-				r.sample(map[string]interface{}{"size": sc.Size, "ops": semOpsString(ex.Eff), "real_after_each_op": ex.Obs})
-			}
-			var mo []string
-			if reps[i] != "" {
-				mo = strings.Split(reps[i], ";")
-			}
-			if reps[i] == "bad-op" {
-				r.violate(Violation{Kind: "correspondence", Key: "C12:sem:driver-bad-op", What: "driver rejected the op encoding",
-					Input: semOpsString(ex.Eff), Broken: "correspondence C12.sem"})
-				continue
-			}
-			if len(ex.Monitors) > 0 {
-				reportSem(c, sc, "property", ex.Monitors[0], reported)
-			} else if d := firstDiff(ex.Obs, mo); d >= 0 {
-				reportSem(c, sc, "correspondence", "mismatch", reported)
-			}
+			c12Account(c, sc, exs[i], reps[i], lo+i, 617, reported)
 		}
+	}
+
+	// limits 1..10^6, amounts relative to the limit, updates walked across the
+	// point where the oldest waiter starts to fit (c12_walk.go)
+	if !c12Part("walk") {
+	} else if c.Thorough {
+		runC12Walk(c, 30000, 45*time.Second, reported)
+	} else {
+		runC12Walk(c, 4000, 8*time.Second, reported)
 	}
 
 	// negative witnesses of Props/C12.lean replayed on the real API (notes, not violations:
@@ -803,10 +907,23 @@ func runC12(c *Ctx) {
 	if c.Thorough {
 		rounds = 150
 	}
-	c12Stress(c, rounds)
-
-	runC12MaxJobs(c)
-	runC12Cluster(c)
-	runC12Local(c)
+	if c12Part("stress") {
+		c12Stress(c, rounds)
+	}
+	if c12Part("mj") {
+		runC12MaxJobs(c)
+	}
+	if c12Part("cluster") {
+		runC12Cluster(c)
+	}
+	if c12Part("queue") {
+		runC12Queue(c)
+	}
+	if c12Part("refresh") {
+		runC12Refresh(c)
+	}
+	if c12Part("local") {
+		runC12Local(c)
+	}
 
 }
